@@ -49,11 +49,19 @@ def sample_lines():
         fam.append("pushbytess " + " ".join(f"0x0{i}" for i in range(k)) if k else "pushbytess")
         fam.append("switch " + " ".join(f"l{i}" for i in range(k)) if k else "switch")
         fam.append("match " + " ".join(f"l{i}" for i in range(k)) if k else "match")
+    # a label may be listed more than once: every listed label is an operand / a case
+    for k in range(2, 6):
+        fam.append("match " + " ".join("l0" for _ in range(k)))
+        fam.append("switch " + " ".join("l0" for _ in range(k)))
+        fam.append("match " + " ".join(f"l{i % 2}" for i in range(k)))
+        fam.append("switch " + " ".join(f"l{i % 2}" for i in range(k)))
     for a in range(0, 4):
         for r in range(0, 4):
             fam.append(f"proto {a} {r}")
     ctl = ["b l", "bz l", "bnz l", "callsub l", "retsub", "err", "return", "assert", "intcblock 1 2 3", "bytecblock 0x01 0x02",
-           "intc 0", "intc_0", "intc_1", "intc_2", "intc_3", "bytec 0", "bytec_0", "bytec_1", "bytec_2", "bytec_3", "l:", "#pragma version 8"]
+           "intc 0", "intc_0", "intc_1", "intc_2", "intc_3", "bytec 0", "bytec_0", "bytec_1", "bytec_2", "bytec_3", "l:", "#pragma version 8",
+           # opcodes whose COST depends on an immediate: the second curve (the repository's corpus only has Secp256k1)
+           "ecdsa_verify Secp256r1", "ecdsa_pk_decompress Secp256r1"]
     return lines, fam, ctl
 
 
@@ -664,6 +672,13 @@ def regenerate():
         if write_if_changed(os.path.join(GEN, 'Matchers.lean'), txt): res['changed'].append('Matchers.lean')
     except Exception as e:  # noqa
         res['errors'].append(f"Matchers: {type(e).__name__}: {e}")
+    try:
+        import search_gen
+        txt, errs = search_gen.gen_search()
+        res['errors'] += [f"Search: {x}" for x in errs]
+        if write_if_changed(os.path.join(GEN, 'Search.lean'), txt): res['changed'].append('Search.lean')
+    except Exception as e:  # noqa
+        res['errors'].append(f"Search: {type(e).__name__}: {e}")
     try:
         import flow_gen
         txt, errs = flow_gen.gen_flow()
